@@ -280,6 +280,12 @@ def observe(desc):
            "inst": False, "uses": []}
     try:
         deco = w.spec_class(**kw)
+        if desc.get("prior"):
+            # one configured decorator object applied to an earlier class first: what it learnt
+            # there must not leak into this class (the model decorates `cls` alone)
+            prior_cls, _ = build_class(dict(desc["prior"], cfg=desc["cfg"], occupied=[]))
+            deco(prior_cls)
+            prior_cls.__spec_class__
         deco(cls)
         cls.__spec_class__  # triggers the lazy bootstrap
         cls.__dict__["__spec_class__"].attrs
@@ -466,6 +472,13 @@ FIXED = [
 ]
 
 
+FIXED.append({"attrs": [{"name": "a", "ty": "int", "decl": "none"}, {"name": "bs", "ty": "list", "decl": "none"},
+                        {"name": "c", "ty": "noann", "decl": "value"}],
+              "cfg": base_cfg(attrs=["c"], attrs_skip=[])})
+FIXED.append({"attrs": [{"name": "a", "ty": "int", "decl": "none"}, {"name": "ms", "ty": "dict", "decl": "none"}],
+              "cfg": base_cfg(attrs_typed=[("ds", "list")], attrs_skip=[], lazy=False)})
+
+
 def expected_generated(desc):
     """names that decoration adds to this class (from the implementation itself)"""
     cls, kw = build_class(desc)
@@ -512,6 +525,19 @@ def generate(rng, tier):
         if i < (12 if quick else 120):
             cases += variants(d, rng, per_name=1 if quick else None,
                               falsy=(1 if i < 6 else 0) if quick else 2)
+    # one decorator object applied to two classes (the second one is the case)
+    for i in range(30 if quick else 300):
+        d = random_desc(rng, 4)
+        p_ = random_desc(rng, 4)
+        names_ = {a["name"] for a in d["attrs"]}
+        p_["attrs"] = [a for a in p_["attrs"] if a["name"] not in names_ and not a["name"].startswith("_")
+                       and a.get("decl", "none") in ("none", "value")]
+        if not p_["attrs"]:
+            p_["attrs"] = [{"name": "earlier", "ty": "list", "decl": "none"}]
+        if i % 3 == 0:
+            d["cfg"]["attrs_skip"] = []   # explicitly empty
+        d["prior"] = {"attrs": p_["attrs"]}
+        cases.append((d, "shared_decorator"))
     # occupied pairs
     for i in range(20 if quick else 200):
         d = random_desc(rng, 3)
@@ -548,6 +574,127 @@ def generate(rng, tier):
     return cases, {"same_singular_pairs_found": len(same), "plural_singular_pairs_found": len(withname)}
 
 
+# ------------------------------------------------------------------ hierarchies: first use through a subclass / super()
+# Implementation-only probe (the Coq model has one class): the oracle is evaluated here, in Python,
+# on object identities.  Oracle: every member a class of the hierarchy defines in its own body is the
+# same object before and after any sequence of first uses (through the subclass, through an instance
+# of the subclass, through super(), through the parent), no name appears in a plain subclass's
+# dictionary, and the parent's own dictionary ends up holding the generated function.
+HIER_OCC = ["super_function", "function", "staticmethod", "value"]
+HIER_ACCESS = ["subclass", "instance", "super", "parent_last"]
+
+
+def hier_occupant(kind, name, holder):
+    if kind == "super_function":
+        def f(self, *a, **k):
+            return getattr(super(holder[0], self), name)(*a, **k)
+        return f
+    if kind == "function":
+        return lambda self, *a, **k: None
+    if kind == "staticmethod":
+        return staticmethod(lambda *a, **k: None)
+    return 7
+
+
+def hier_run(case):
+    """case: {"desc": parent description, "name": generated name, "sub": plain|spec, "occ": kind, "access": mode}
+    returns a list of oracle failures (empty: fine)"""
+    from spec_classes.methods.base import MethodDescriptor
+    w = world()
+    desc = case["desc"]
+    P, kw = build_class(desc)
+    P = w.spec_class(**kw)(P)
+    P.__spec_class__  # bootstrap the parent
+    name = case["name"]
+    if name not in P.__dict__:
+        return ["parent does not generate " + name]
+    holder = []
+    S = type("S", (P,), {name: hier_occupant(case["occ"], name, holder), "own_member": lambda self: 1})
+    holder.append(S)
+    if case["sub"] == "spec":
+        S = w.spec_class(bootstrap=True)(S)
+        holder[0] = S
+    before_S = dict(S.__dict__)
+    user_P = {n: o for n, o in P.__dict__.items() if not isinstance(o, MethodDescriptor)}
+    try:
+        inst = S()
+    except BaseException as e:
+        if isinstance(e, (KeyboardInterrupt, SystemExit)):
+            raise
+        inst = None
+
+    def touch(obj, n, call=False):
+        try:
+            v = getattr(obj, n)
+            if call and callable(v):
+                v()
+        except BaseException as e:
+            if isinstance(e, (KeyboardInterrupt, SystemExit)):
+                raise
+    mode = case["access"]
+    if mode == "subclass":
+        touch(S, name)
+    elif mode == "instance" and inst is not None:
+        touch(inst, name)
+    elif mode == "super" and inst is not None:
+        touch(inst, name, call=True)
+        try:
+            getattr(super(S, inst), name)
+        except BaseException as e:
+            if isinstance(e, (KeyboardInterrupt, SystemExit)):
+                raise
+    # then every name of the parent: through the subclass, its instance, and finally the parent
+    for n in list(P.__dict__):
+        if n.startswith("__"):
+            continue
+        touch(S, n)
+        if inst is not None:
+            touch(inst, n)
+            try:
+                getattr(super(S, inst), n)
+            except BaseException as e:
+                if isinstance(e, (KeyboardInterrupt, SystemExit)):
+                    raise
+    for n in list(P.__dict__):
+        if not n.startswith("__"):
+            touch(P, n)
+    fails = []
+    for n, o in before_S.items():
+        if n in ("__new__",) or n.startswith("__spec_class") or n == "__dataclass_fields__":
+            continue
+        now = S.__dict__.get(n, "<gone>")
+        if now is not o and not isinstance(o, MethodDescriptor):
+            fails.append(f"S.__dict__[{n!r}] was {type(o).__name__}, is now {type(now).__name__ if now != '<gone>' else 'gone'}")
+    extra = [n for n in S.__dict__ if n not in before_S]
+    if extra:
+        fails.append(f"names appeared in the subclass dictionary: {sorted(extra)}")
+    for n, o in user_P.items():
+        if n.startswith("__"):
+            continue
+        if P.__dict__.get(n) is not o:
+            fails.append(f"P.__dict__[{n!r}] changed")
+    for n, o in P.__dict__.items():
+        if isinstance(o, MethodDescriptor):
+            fails.append(f"P.__dict__[{n!r}] is still a descriptor after its first use")
+    return fails
+
+
+def hier_generate(rng, tier):
+    quick = tier == "quick"
+    parents = [dict(FIXED[0], occupied=[], inst=True), dict(FIXED[1], occupied=[], inst=True), dict(FIXED[3], occupied=[], inst=True)]
+    parents[0] = dict(parents[0], cfg=base_cfg(lazy=True))
+    out = []
+    for d in parents:
+        names = [n for n in expected_generated(d) if not n.startswith("__")]
+        for n in names:
+            combos = [(sub, occ, acc) for sub in ("plain", "spec") for occ in HIER_OCC for acc in HIER_ACCESS]
+            if quick:
+                combos = rng.sample(combos, 6) + [("plain", "super_function", "super"), ("spec", "super_function", "instance")]
+            for sub, occ, acc in combos:
+                out.append({"desc": d, "name": n, "sub": sub, "occ": occ, "access": acc})
+    return out
+
+
 # ------------------------------------------------------------------ check
 def evaluate(descs, tag="c"):
     terms, obss = [], []
@@ -566,6 +713,10 @@ def shrink(desc, code):
         for j in range(len(cur["attrs"])):
             d = json.loads(json.dumps(cur))
             del d["attrs"][j]
+            cands.append(d)
+        if cur.get("prior"):
+            d = json.loads(json.dumps(cur))
+            del d["prior"]
             cands.append(d)
         for j in range(len(cur.get("occupied", []))):
             d = json.loads(json.dumps(cur))
@@ -616,6 +767,11 @@ def main(tier, replay=None):
     chk = Check("C16", tier)
     if replay:
         r = json.load(open(replay))
+        if "hier" in r:
+            r["hier"]["desc"] = fix_desc(r["hier"]["desc"])
+            fails = hier_run(r["hier"])
+            print("replay:", "still failing code=2" if fails else "passes now", fails[:5])
+            return 1 if fails else 0
         desc = fix_desc(r["desc"])
         bad, logs, obss = evaluate([desc], tag="r")
         print("replay:", "still failing code=%s" % bad[0][1] if bad else "passes now", logs)
@@ -649,12 +805,30 @@ def main(tier, replay=None):
         what = (("decoration violates the documented helper rules (" + ",".join(why) + ")") if code == 2
                 else "decoration differs from the model") + \
             f": attrs={[(a['name'], a['ty'], a.get('decl', 'none')) for a in small['attrs']]} " \
-            f"occupied={small.get('occupied')} cfg={ {k: v for k, v in small['cfg'].items() if v not in (None, True)} }"
+            f"occupied={small.get('occupied')} " + (f"same decorator object applied first to a class with attrs={[(a['name'], a['ty']) for a in small['prior']['attrs']]} " if small.get("prior") else "") + f"cfg={ {k: v for k, v in small['cfg'].items() if v not in (None, True)} }"
         chk.violation(what, {"desc": small, "code": code, "rejected_by": why,
                              "observed": {k: o[k] for k in ("outcome", "attrs", "annots")},
                              "generated": [p for p in o["after"] if p[1].startswith("G ")],
                              "replay": "bin/check C16 --replay <this file>"},
                       sig=sig, no_input=(code != 2))
+    # hierarchies (implementation-only probe, oracle in Python)
+    hier = hier_generate(chk.rng, tier)
+    hier_failed = 0
+    hreported = set()
+    for hc in hier:
+        fails = hier_run(hc)
+        if not fails:
+            continue
+        hier_failed += 1
+        sig = {"code": 2, "kind": "hierarchy", "sub": hc["sub"], "occ": hc["occ"], "access": hc["access"]}
+        key = json.dumps(sig, sort_keys=True)
+        if key in hreported or len(hreported) >= 6:
+            continue
+        hreported.add(key)
+        chk.violation(f"first use through a subclass replaced user code: parent attrs="
+                      f"{[(a['name'], a['ty']) for a in hc['desc']['attrs']]} name={hc['name']} subclass={hc['sub']} "
+                      f"defines it as {hc['occ']}, first use via {hc['access']}: {fails[:3]}",
+                      {"hier": hc, "failures": fails, "code": 2, "replay": "bin/check C16 --replay <this file>"}, sig=sig)
     for lg in logs:
         chk.violation("correspondence evaluation failed: " + lg[-500:], {"kind": "coq-eval", "log": lg}, no_input=True)
     kinds, outcomes, nattrs, occk, tys, lazy = {}, {}, {}, {}, {}, {}
@@ -677,6 +851,7 @@ def main(tier, replay=None):
             nontrivial += 1
     extra = {
         "correspondence": {"cases": len(cases), "disagreements": len(bad), "by_generator": kinds,
+                           "hierarchy_probes": len(hier), "hierarchy_probe_failures": hier_failed,
                            "outcome_histogram": outcomes, "attribute_count_histogram": nattrs,
                            "occupied_kind_histogram": occk, "attribute_type_histogram": tys,
                            "lazy_histogram": lazy, "generated_entries_compared": gen_names,
